@@ -263,6 +263,7 @@ pub struct Flags {
     pub c01_nontrivial: u32,
     pub c02_nontrivial: u32,
     pub wrapped: bool,
+    pub pipelined_rounds: u32,
     pub max_out: usize,
     pub c05_checks: u32,
 }
@@ -373,6 +374,7 @@ impl Eng {
                 c01_nontrivial: 0,
                 c02_nontrivial: 0,
                 wrapped: false,
+                pipelined_rounds: 0,
                 max_out: 0,
                 c05_checks: 0,
             },
@@ -470,11 +472,13 @@ impl Eng {
             outs.push(vec![sentinel; l.max(1) as usize].into_boxed_slice());
         }
         let nb = ins.len() + outs.len();
-        let uses_indirect = self.cfg.indirect && nb > 1;
-        let need = if uses_indirect { 1 } else { nb };
+        // Whether a multi-buffer submission on an indirect-enabled queue uses an indirect table is
+        // the implementation's choice (the property only forbids tables on queues without the
+        // feature); capacity is sufficient as soon as the cheapest legal form fits.
+        let min_need = if self.cfg.indirect && nb > 1 { 1 } else { nb };
         let expect: Result<(), Error> = if nb == 0 {
             Err(Error::InvalidParam)
-        } else if self.held + need > self.n || nb > self.n {
+        } else if self.held + min_need > self.n || nb > self.n {
             Err(Error::QueueFull)
         } else {
             Ok(())
@@ -551,13 +555,6 @@ impl Eng {
                 other => return Err(v("C04", format!("unexpected platform call during add: {:?}", other))),
             }
         }
-        let exp_shares = nb + usize::from(uses_indirect);
-        if share_idx.len() != exp_shares {
-            return Err(v(
-                "C04",
-                format!("add of {} buffers (indirect table: {}) made {} share calls, expected {}", nb, uses_indirect, share_idx.len(), exp_shares),
-            ));
-        }
         let mut want: Vec<(u64, u32, bool)> = Vec::new();
         for (b, wr) in ins.iter().map(|b| (b, false)).chain(outs.iter().map(|b| (b, true))) {
             let va = b.as_ptr() as usize;
@@ -620,8 +617,18 @@ impl Eng {
                 format!("chain at head {} describes {:x?} but the caller supplied (device address, len, writable) {:x?}", token, got, want),
             ));
         }
-        if chain.indirect.is_some() != uses_indirect {
-            return Err(v("C01", format!("chain of {} buffers: indirect table {} (queue indirect={})", nb, chain.indirect.is_some(), self.cfg.indirect)));
+        let uses_indirect = chain.indirect.is_some();
+        if uses_indirect && !self.cfg.indirect {
+            return Err(v("C01", format!("chain of {} buffers uses an indirect table although indirect descriptors are not enabled for the queue", nb)));
+        }
+        let need = if uses_indirect { 1 } else { nb };
+        // ---- C04: exactly one share per buffer (+1 for the indirect table, when one is used)
+        let exp_shares = nb + usize::from(uses_indirect);
+        if share_idx.len() != exp_shares {
+            return Err(v(
+                "C04",
+                format!("add of {} buffers (indirect table: {}) made {} share calls, expected {}", nb, uses_indirect, share_idx.len(), exp_shares),
+            ));
         }
         if let Some((ta, tl)) = chain.indirect {
             let ok = with(|w| w.hal.share_at(ta).map(|r| (r.len, r.dir)));
@@ -1049,10 +1056,21 @@ impl Eng {
                 }
             }
             self.fetch()?;
+            // The device completes most of what it holds, in a rotating order, but keeps up to
+            // two chains in flight across rounds, so that the driver polls while the device's
+            // used index trails the available index -- also across the 16-bit wrap.
+            let keep = if self.dev_out.len() >= 2 { ((r as usize + l.rot as usize) % 3).min(self.dev_out.len() - 1) } else { 0 };
             let mut k = 0u16;
-            while !self.dev_out.is_empty() {
+            while self.dev_out.len() > keep {
                 k = k.wrapping_add((l.rot as u16).wrapping_mul(9973).wrapping_add(r as u16));
                 self.complete(k, k)?;
+                if (r as usize + self.dev_out.len()) % 5 == 0 {
+                    // poll between two completions
+                    self.pop(&PopWhich::Front)?;
+                }
+            }
+            if keep > 0 {
+                self.flags.pipelined_rounds += 1;
             }
             if r % 7 == 3 {
                 self.pop(&PopWhich::Other(r as u16))?;
@@ -1063,7 +1081,7 @@ impl Eng {
             if r % 11 == 5 {
                 self.pop(&PopWhich::Front)?; // nothing ready
             }
-            if added == 0 {
+            if added == 0 && self.held == 0 {
                 return Err(v("C03", "long run could not submit anything on an empty queue"));
             }
         }
@@ -1195,6 +1213,9 @@ pub fn run_case(c: &QCase, prop: &'static str, st: &mut Stats) -> Result<(), Str
             }
             if f.wrapped {
                 st.class("index_wrap_crossed");
+                if f.pipelined_rounds > 0 {
+                    st.class("index_wrap_crossed_with_chains_in_flight");
+                }
             }
             if c.cfg.legacy {
                 st.class("legacy_layout");
